@@ -92,6 +92,10 @@ let () =
         (match gen_domain_line (d, t) with
          | Some l -> out (" " ^ hex_of_bytes l ^ "\n")
          | None -> out " DIE\n")
+      | "C" ->   (* one raw input line of the eav tool (with its terminator) -> SKIP | trimmed sanitized *)
+        (match trim_line (bytes_of_hex f.(1)) with
+         | None -> out "SKIP\n"
+         | Some t -> out (hex_of_bytes t ^ " " ^ hex_of_bytes (sanitize t) ^ "\n"))
       | "J" ->
         let m = int_of_string f.(1) and mask = int_of_string f.(2) and tldc = f.(3) = "1" and rc = int_of_string f.(4) in
         let idn = (fun _ -> IdnErr (Z0, false)) in
